@@ -120,6 +120,14 @@ def make_subscribers(kind, label, signals, rig_log, names):
             elif kind == "partial":
                 async def g(result=None):
                     return None
+            elif kind == "noargs":
+                # declares nothing at all: still one call per signal
+                if len(name) % 2:
+                    async def g():
+                        rig_log.add(k="noargs_signal", name=name, conn=label)
+                else:
+                    def g():
+                        rig_log.add(k="noargs_signal", name=name, conn=label)
             else:
                 raise AssertionError(kind)
             g.__name__ = name
@@ -164,7 +172,7 @@ async def lifecycle(loop, case, subset, record):
         signals = []
         names = sorted(SUBSCRIBERS_NAMES)
         flavours = {"none": [], "recording": ["recording"], "raising": ["raising", "recording"], "slow": ["slow", "recording"], "sync": ["sync", "recording"],
-                    "partial": ["partial", "recording"], "mixed": ["raising", "slow", "sync", "partial", "recording"]}[subset]
+                    "partial": ["partial", "noargs", "recording"], "mixed": ["raising", "slow", "sync", "partial", "noargs", "recording"]}[subset]
         for lab, c in conns.items():
             for fl in flavours:
                 for f in make_subscribers(fl, lab, signals, w.log, names):
@@ -371,6 +379,19 @@ def judge_signals(case, subset, rec, out, stats, fps):
                     out.append(V("kwargs_mismatch", kind, f"{name}/result", f"after_{name} carried result {str(s['kwargs']['result'])[:80]}, the operation returned {str(t.get('result'))[:80]}"))
 
 
+def judge_shapes(case, subset, rec, out, stats):
+    """Subscribers of other shapes see the same signals: one without parameters is called once per emitted signal."""
+    if subset not in ("partial", "mixed"):
+        return
+    full = collections.Counter((s["conn"], s["name"]) for s in rec["signals"])
+    bare = collections.Counter((e["conn"], e["name"]) for e in rec["events"] if e.get("k") == "noargs_signal")
+    stats["noargs_subscriber_calls"] += sum(bare.values())
+    for k in sorted(set(full) | set(bare)):
+        if full[k] != bare[k]:
+            out.append(V("missing_before" if k[1].startswith("before_") else "missing_after", case["kind"], "subscriber-without-parameters", f"{k[1]} on {k[0]}: the fully declared subscriber was called {full[k]} times, the one without parameters {bare[k]} times"))
+            break
+
+
 def run_case(case):
     from rv.sim import loop as vl
 
@@ -388,6 +409,7 @@ def run_case(case):
         recs[subset] = rec
         if subset != "none":
             judge_signals(case, subset, rec, out, stats, fps)
+            judge_shapes(case, subset, rec, out, stats)
         if case["conns"] == 2:
             stats["two_connection_runs"] += 1
     base = recs.get("none")
